@@ -1,104 +1,167 @@
 import PrysmVerif.Generated.C04
+import PrysmVerif.Lemmas.C04Defs
 import Mathlib.Tactic.Ring
+import Mathlib.Tactic.FieldSimp
+import Mathlib.Tactic.Linarith
 import Mathlib.Algebra.Order.Floor.Ring
 import PrysmVerif.Lemmas.PyArith
 /-!
 # C04 — one origin convention: sample `n // 2` is zero for every grid, pad, crop and metric
 
-Every theorem quantifies over **all** axis lengths / target lengths (no bound).  Theorems whose
-subject lives in `Generated.C04` are re-checked against the current source on every run.
+Every theorem quantifies over **all** axis lengths / target lengths / spacings (no bound).  The subjects
+(`fftrangeLo`, `padBefore`, `gridX`, `ftUnitNum`, `slicesCentreY`, `centroidSpatialElem`, …) live in
+`Generated.C04`: they are re-translated from the current prysm (and NumPy helper) source on every run.
+Statements are *semantic* (what the translated term must compute); proofs end in `omega` / `ring`, so an
+equivalent rewrite of the source still checks and a different offset does not.
 -/
 set_option linter.unusedTactic false
 set_option linter.unreachableTactic false
+set_option linter.unusedSimpArgs false
+set_option linter.unusedVariables false
 
 namespace C04
 open Generated.C04
 
-/-! ## translated obligations: the generated glue equals the hand model (∀ inputs) -/
+/-! ## bridges: the generated glue computes what the driver-executed hand model computes (∀ inputs) -/
 
+/-- translated `fftrange` bounds = the model run by the driver -/
 theorem gen_fftrange (n : Int) :
     fftrangeLo n = Model.C04.fftrangeLo n ∧ fftrangeHi n = Model.C04.fftrangeHi n := by
-  simp [fftrangeLo, fftrangeHi, Model.C04.fftrangeLo, Model.C04.fftrangeHi]
+  constructor <;> (try simp only [fftrangeLo, fftrangeHi, Model.C04.fftrangeLo, Model.C04.fftrangeHi]) <;> omega
 
+/-- translated `np.pad` widths of `pad2d` = the model run by the driver -/
 theorem gen_pad (n N : Int) :
     padBefore n N = Model.C04.padBefore n N ∧ padAfter n N = Model.C04.padAfter n N := by
-  constructor <;> simp only [padBefore, padAfter, Model.C04.padAfter, Model.C04.padBefore] <;> omega
+  constructor <;> (try simp only [padBefore, padAfter, Model.C04.padAfter, Model.C04.padBefore]) <;> omega
 
 /-- the constant-mode slice and the `np.pad` branch place the data at the same offset -/
 theorem gen_pad_slice (n N : Int) :
     padSliceLo n N = padBefore n N ∧ padSliceHi n N = padBefore n N + n := by
-  constructor <;> simp only [padSliceLo, padSliceHi, padBefore] <;> omega
+  constructor <;> (try simp only [padSliceLo, padSliceHi, padBefore, Model.C04.padBefore]) <;> omega
 
+/-- translated `crop_center` slice = the model run by the driver -/
 theorem gen_crop (n N : Int) :
     cropLo n N = Model.C04.cropLeft n N ∧ cropHi n N = Model.C04.cropLeft n N + N := by
-  constructor <;> simp only [cropLo, cropHi, Model.C04.cropLeft] <;> omega
+  constructor <;> (try simp only [cropLo, cropHi, Model.C04.cropLeft]) <;> omega
 
+/-- translated centroid reference index = the model run by the driver -/
 theorem gen_centroid (n : Int) : centroidRef n = Model.C04.centroidRef n := by
-  simp only [centroidRef, Model.C04.centroidRef]
+  (try simp only [centroidRef, Model.C04.centroidRef]) <;> omega
 
+/-- translated default padded length = the model run by the driver -/
 theorem gen_padOutLen (n Q : Rat) : padOutLen n Q = Model.C04.padOutLen n Q := by
-  simp only [padOutLen, Model.C04.padOutLen]
+  first | rfl | simp only [padOutLen, Model.C04.padOutLen, mul_comm]
 
-/-- structural facts read off the AST of the current source -/
-theorem gen_structure :
-    xyGridIsFftrangeTimesDxInYXOrder = true ∧ ftUnitIsFftshiftOfFftfreq = true ∧
-    slicesCentreIsArgminAbs = true ∧ wavefrontPadDelegates = true ∧ wavefrontCropDelegates = true := by
+/-- an integer `out_shape` means that length on every axis (pad2d and crop_center) -/
+theorem int_out_shape (N : Int) :
+    padIntShape0 N = N ∧ padIntShape1 N = N ∧ cropIntShape0 N = N ∧ cropIntShape1 N = N := by
+  refine ⟨?_, ?_, ?_, ?_⟩ <;> (try simp only [padIntShape0, padIntShape1, cropIntShape0, cropIntShape1]) <;> omega
+
+/-- `Wavefront.pad2d` / `Wavefront.crop` hand every argument to `fttools.pad2d` / `crop_center` under its own name
+and store / return the result (read off the call's argument binding, keyword or positional) -/
+theorem gen_structure : wavefrontPadDelegates = true ∧ wavefrontCropDelegates = true := by
   decide
 
-/-! ## the property, stated over the generated definitions -/
+/-! ## coordinate vectors and grids -/
 
-/-- `fftrange n` has `n` samples and an exact zero at index `n // 2` -/
-theorem fftrange_zero (n : Int) :
-    fftrangeLo n + n / 2 = 0 ∧ fftrangeHi n - fftrangeLo n = n := by
-  simp only [fftrangeLo, fftrangeHi]; omega
+/-- `fftrange n` has `n` samples, index `n // 2` lies inside it and holds an exact zero -/
+theorem fftrange_zero (n : Int) (hn : 1 ≤ n) :
+    0 ≤ n / 2 ∧ n / 2 < n ∧ fftrangeLo n + n / 2 = 0 ∧ fftrangeHi n - fftrangeLo n = n := by
+  refine ⟨?_, ?_, ?_, ?_⟩ <;> (try simp only [fftrangeLo, fftrangeHi, Model.C04.fftrangeLo, Model.C04.fftrangeHi]) <;> omega
 
-/-- the grid is strictly increasing with unit step, so `n // 2` is the unique zero / unique argmin of `|x|` -/
+/-- sample `i` of `fftrange n` is `i - n // 2`: unit step, so `n // 2` is the only zero -/
+theorem fftrange_sample (n i : Int) : fftrangeLo n + i = i - n / 2 := by
+  (try simp only [fftrangeLo, Model.C04.fftrangeLo]) <;> omega
+
+/-- the zero of `fftrange n` is unique -/
 theorem fftrange_unique_zero (n i : Int) (h : fftrangeLo n + i = 0) : i = n / 2 := by
-  simp only [fftrangeLo] at h; omega
+  rw [fftrange_sample] at h; omega
 
+/-- `n // 2` is the unique argmin of `|fftrange n|` -/
 theorem argmin_abs_is_origin (n i : Int) (hi : i ≠ n / 2) :
     |fftrangeLo n + n / 2| < |fftrangeLo n + i| := by
-  have h0 : fftrangeLo n + n / 2 = 0 := (fftrange_zero n).1
+  have h0 : fftrangeLo n + n / 2 = 0 := by rw [fftrange_sample]; omega
   rw [h0]
   have : fftrangeLo n + i ≠ 0 := fun h => hi (fftrange_unique_zero n i h)
   simpa using this
 
-/-- padding moves the origin sample onto the origin of the new array (every parity) -/
-theorem pad_origin (n N : Int) (_h0 : 0 ≤ n) (_h : n ≤ N) : padBefore n N + n / 2 = N / 2 := by
-  simp only [padBefore]; omega
+/-- helper: the same for the hand model's `fftrangeLo` (used when an item fell back to the model) -/
+theorem fftrange_sampleM (n i : Int) : Model.C04.fftrangeLo n + i = i - n / 2 := by
+  simp only [Model.C04.fftrangeLo]; omega
 
-/-- padding only adds samples: the two pad widths are non-negative and add up -/
-theorem pad_widths (n N : Int) (_h0 : 0 ≤ n) (h : n ≤ N) :
-    0 ≤ padBefore n N ∧ 0 ≤ padAfter n N ∧ padBefore n N + n + padAfter n N = N := by
-  simp only [padBefore, padAfter]; omega
+/-- sample `i` of `fftrange(s) * dx` (the generator element of `make_xy_grid`) is `(i - s // 2) * dx` -/
+theorem xyGridElem_eq (s i : Int) (dx : Rat) : xyGridElem s i dx = ((i - s / 2 : Int) : Rat) * dx := by
+  (try simp only [xyGridElem, Model.C04.gridElem, fftrange_sample, fftrange_sampleM]) <;> ring
 
-/-- cropping moves the origin sample onto the origin of the new array and stays in bounds -/
-theorem crop_origin (n N : Int) (_h0 : 0 ≤ N) (h : N ≤ n) :
-    n / 2 - cropLo n N = N / 2 ∧ 0 ≤ cropLo n N ∧ cropHi n N ≤ n ∧ cropHi n N - cropLo n N = N := by
-  simp only [cropLo, cropHi]; omega
+/-- `make_xy_grid((m, n), dx)`: `x[i, j] = (j - n//2)·dx` whatever `i`, `m`; `y[i, j] = (i - m//2)·dx` whatever `j`, `n`
+— (row, column) = (y, x) order, the two axes independent; the same for the 1-D vectors of `grid=False` -/
+theorem grid_values (m n : Int) (dx : Rat) (i j : Int) :
+    gridX m n dx i j = ((j - n / 2 : Int) : Rat) * dx ∧ gridY m n dx i j = ((i - m / 2 : Int) : Rat) * dx ∧
+    vecX m n dx j = ((j - n / 2 : Int) : Rat) * dx ∧ vecY m n dx i = ((i - m / 2 : Int) : Rat) * dx := by
+  refine ⟨?_, ?_, ?_, ?_⟩ <;>
+    simp only [gridX, gridY, vecX, vecY, Model.C04.gridX, Model.C04.gridY, Model.C04.vecX, Model.C04.vecY,
+      xyGridElem_eq, Model.C04.gridElem, fftrange_sampleM]
 
-/-- crop undoes pad exactly: same offset, so `crop (pad x) = x` sample for sample, any fill, any mode -/
-theorem crop_pad_id (n N : Int) : cropLo N n = padBefore n N := by
-  simp only [cropLo, padBefore]
+/-- the 2-D grids hold an exact zero on row `m // 2` / column `n // 2`, which is inside the array, and only there
+when `dx ≠ 0` -/
+theorem grid_origin (m n : Int) (hm : 1 ≤ m) (hn : 1 ≤ n) (dx : Rat) (i j : Int) :
+    0 ≤ m / 2 ∧ m / 2 < m ∧ 0 ≤ n / 2 ∧ n / 2 < n ∧
+    gridX m n dx i (n / 2) = 0 ∧ gridY m n dx (m / 2) j = 0 ∧
+    (dx ≠ 0 → gridX m n dx i j = 0 → j = n / 2) ∧ (dx ≠ 0 → gridY m n dx i j = 0 → i = m / 2) := by
+  obtain ⟨hx, hy, _, _⟩ := grid_values m n dx i j
+  obtain ⟨hx0, _, _, _⟩ := grid_values m n dx i (n / 2)
+  obtain ⟨_, hy0, _, _⟩ := grid_values m n dx (m / 2) j
+  refine ⟨by omega, by omega, by omega, by omega, ?_, ?_, ?_, ?_⟩
+  · rw [hx0]; simp
+  · rw [hy0]; simp
+  · intro hdx h
+    rw [hx] at h
+    rcases mul_eq_zero.1 h with h | h
+    · have : j - n / 2 = 0 := by exact_mod_cast h
+      omega
+    · exact absurd h hdx
+  · intro hdx h
+    rw [hy] at h
+    rcases mul_eq_zero.1 h with h | h
+    · have : i - m / 2 = 0 := by exact_mod_cast h
+      omega
+    · exact absurd h hdx
 
-theorem crop_pad_roundtrip (n N i : Int) (h0 : 0 ≤ i) (hi : i < n) :
-    Model.C04.padSrc n N (Model.C04.cropSrc N n i) = some i := by
-  unfold Model.C04.padSrc Model.C04.cropSrc Model.C04.cropLeft Model.C04.padBefore
-  split
-  · congr 1; omega
-  · omega
+/-- a scalar `shape` means a square grid; `diameter=` makes the longer axis span the diameter -/
+theorem grid_scalar_and_diameter (s : Int) (d : Rat) (m n : Int) (hm : 1 ≤ m) (hn : 1 ≤ n) :
+    xyScalarShape0 s = s ∧ xyScalarShape1 s = s ∧ xyDxOfDiameter d m n * ((max m n : Int) : Rat) = d := by
+  refine ⟨?_, ?_, ?_⟩
+  · (try simp only [xyScalarShape0]) <;> omega
+  · (try simp only [xyScalarShape1]) <;> omega
+  · have h : ((max m n : Int) : Rat) ≠ 0 := by
+      have : (1 : Int) ≤ max m n := le_trans hm (le_max_left m n)
+      have : (0 : Int) < max m n := by omega
+      exact_mod_cast this.ne'
+    simp only [xyDxOfDiameter, Model.C04.dxOfDiameter]
+    field_simp
 
-/-- the centroid reference is the origin sample, so a point source `k` samples from it reads `k·dx` -/
-theorem centroid_ref (n : Int) : centroidRef n = n / 2 := by simp only [centroidRef]
+/-- translated grid samples = the model run by the driver -/
+theorem gen_grid (m n : Int) (dx : Rat) (i j : Int) :
+    gridX m n dx i j = Model.C04.gridX m n dx i j ∧ gridY m n dx i j = Model.C04.gridY m n dx i j := by
+  obtain ⟨hx, hy, _, _⟩ := grid_values m n dx i j
+  constructor
+  · rw [hx]; simp only [Model.C04.gridX, Model.C04.gridElem, fftrange_sampleM]
+  · rw [hy]; simp only [Model.C04.gridY, Model.C04.gridElem, fftrange_sampleM]
 
-theorem centroid_of_delta (n k : Int) (dx : Rat) :
-    dx * (((n / 2 + k : Int) : Rat) - ((centroidRef n : Int) : Rat)) = k * dx := by
-  rw [centroid_ref]; push_cast; ring
+/-! ## frequency axis (`forward_ft_unit`, composed of NumPy's own `fftfreq` / `fftshift` constants) -/
 
-/-- `fftshift(fftfreq(n))` has its zero at `n // 2` and unit step (in units of `1/(n·dx)`) -/
-theorem ftunit_zero_at_origin (n i : Int) (h0 : 0 ≤ i) (hi : i < n) :
-    Model.C04.ftUnitNum n i = i - n / 2 := by
-  unfold Model.C04.ftUnitNum Model.C04.fftfreqNum Model.C04.fftshiftSrc
+/-- NumPy's translated `fftfreq` split point / segment starts and `fftshift` roll amount, in closed form -/
+theorem np_consts (n : Int) :
+    npFftfreqSplit n = (n + 1) / 2 ∧ npFftfreqP1Lo n = 0 ∧ npFftfreqP2Lo n = -(n / 2) ∧ npFftshiftBy n = n / 2 := by
+  refine ⟨?_, ?_, ?_, ?_⟩ <;>
+    (try simp only [npFftfreqSplit, npFftfreqP1Lo, npFftfreqP2Lo, npFftshiftBy, Model.C04.npFftfreqSplit,
+      Model.C04.npFftfreqP1Lo, Model.C04.npFftfreqP2Lo, Model.C04.npFftshiftBy]) <;> omega
+
+/-- `fftshift(fftfreq(n, dx))` (in units of `1/(n·dx)`): sample `i` is `i - n // 2` — zero at `n // 2`, unit step -/
+theorem ftunit_zero_at_origin (n i : Int) (h0 : 0 ≤ i) (hi : i < n) : ftUnitNum true n i = i - n / 2 := by
+  obtain ⟨hs, h1, h2, hb⟩ := np_consts n
+  simp only [ftUnitNum, if_true, Model.C04.ftUnitNumS, Model.C04.ftUnitNum, Model.C04.fftfreqNum,
+    Model.C04.fftshiftSrc, Model.C04.fftfreqOf, Model.C04.rollSrc, hs, h1, h2, hb]
   by_cases hc : i < n / 2
   · have e : (i - n / 2) % n = i - n / 2 + n := by
       rw [← Int.add_emod_right]
@@ -107,16 +170,234 @@ theorem ftunit_zero_at_origin (n i : Int) (h0 : 0 ≤ i) (hi : i < n) :
   · have e : (i - n / 2) % n = i - n / 2 := Int.emod_eq_of_lt (by omega) (by omega)
     simp only [e]; split <;> omega
 
+example : ftUnitNum true 7 3 = 0 ∧ ftUnitNum true 8 4 = 0 := by decide
+
+/-- `forward_ft_unit(shift=False)`: zero frequency at index 0, non-negative half first, then the negative half
+(the un-shifted layout of the same axis: sample `i` of the shifted axis sits at `(i - n//2) mod n`) -/
+theorem ftunit_unshifted (n i : Int) (h0 : 0 ≤ i) (hi : i < n) :
+    ftUnitNum false n 0 = 0 ∧ ftUnitNum false n i = (if i < (n + 1) / 2 then i else i - n) := by
+  obtain ⟨hs, h1, h2, hb⟩ := np_consts n
+  constructor <;>
+    (try simp only [ftUnitNum, Bool.false_eq_true, if_false, Model.C04.ftUnitNumS, Model.C04.fftfreqNum,
+      Model.C04.fftfreqOf, hs, h1, h2]) <;> split <;> omega
+
+example : ftUnitNum false 7 0 = 0 ∧ ftUnitNum false 7 4 = -3 := by decide
+
+/-- the translated frequency axis = the model run by the driver (both layouts) -/
+theorem gen_ftunit (n i : Int) (h0 : 0 ≤ i) (hi : i < n) (shift : Bool) :
+    ftUnitNum shift n i = Model.C04.ftUnitNumS shift n i := by
+  have hm : Model.C04.ftUnitNum n i = i - n / 2 := by
+    unfold Model.C04.ftUnitNum Model.C04.fftfreqNum Model.C04.fftshiftSrc
+    by_cases hc : i < n / 2
+    · have e : (i - n / 2) % n = i - n / 2 + n := by
+        rw [← Int.add_emod_right]
+        exact Int.emod_eq_of_lt (by omega) (by omega)
+      simp only [e]; split <;> omega
+    · have e : (i - n / 2) % n = i - n / 2 := Int.emod_eq_of_lt (by omega) (by omega)
+      simp only [e]; split <;> omega
+  cases shift
+  · rw [(ftunit_unshifted n i h0 hi).2]; simp only [Model.C04.ftUnitNumS, Model.C04.fftfreqNum]; rfl
+  · rw [ftunit_zero_at_origin n i h0 hi]; simp only [Model.C04.ftUnitNumS, if_true, hm]
+
+/-- FFT-route propagation (`focus`, `unfocus`): the roll applied before the FFT brings the origin sample `n // 2` to FFT
+index 0, and the roll applied after it puts the zero-frequency bin on index `n // 2` — for odd and even `n` -/
+theorem fft_route_origin (n : Int) (hn : 1 ≤ n) :
+    Model.C04.rollSrc n (focusPre n) 0 = n / 2 ∧ Model.C04.rollSrc n (focusPost n) (n / 2) = 0 ∧
+    Model.C04.rollSrc n (unfocusPre n) 0 = n / 2 ∧ Model.C04.rollSrc n (unfocusPost n) (n / 2) = 0 := by
+  have hb : npFftshiftBy n = n / 2 := (np_consts n).2.2.2
+  have hi : npIfftshiftBy n = -(n / 2) := by
+    (try simp only [npIfftshiftBy, Model.C04.npIfftshiftBy]) <;> omega
+  have hbM : Model.C04.npFftshiftBy n = n / 2 := rfl
+  have hiM : Model.C04.npIfftshiftBy n = -(n / 2) := rfl
+  have e1 : (0 - -(n / 2)) % n = n / 2 := by
+    rw [zero_sub, neg_neg]; exact Int.emod_eq_of_lt (by omega) (by omega)
+  have e2 : (n / 2 - n / 2) % n = 0 := by simp
+  refine ⟨?_, ?_, ?_, ?_⟩ <;>
+    simp only [focusPre, focusPost, unfocusPre, unfocusPost, Model.C04.rollSrc, hb, hi, hbM, hiM, e1, e2]
+
+example : Model.C04.rollSrc 7 (focusPre 7) 0 = 3 ∧ Model.C04.rollSrc 7 (focusPost 7) 3 = 0 := by decide
+
+/-! ## pad and crop -/
+
+/-- padding moves the origin sample onto the origin of the new array (every parity) -/
+theorem pad_origin (n N : Int) (_h0 : 0 ≤ n) (_h : n ≤ N) : padBefore n N + n / 2 = N / 2 := by
+  (try simp only [padBefore, Model.C04.padBefore]) <;> omega
+
+example : padBefore 4 7 + 4 / 2 = 7 / 2 := by decide
+
+/-- padding only adds samples: the two pad widths are non-negative and add up -/
+theorem pad_widths (n N : Int) (_h0 : 0 ≤ n) (h : n ≤ N) :
+    0 ≤ padBefore n N ∧ 0 ≤ padAfter n N ∧ padBefore n N + n + padAfter n N = N := by
+  refine ⟨?_, ?_, ?_⟩ <;> (try simp only [padBefore, padAfter, Model.C04.padBefore, Model.C04.padAfter]) <;> omega
+
+/-- the constant-mode block `[lo, hi)` lies inside the new array, has the input's length and carries the origin
+sample to index `N // 2` -/
+theorem pad_slice_in_bounds (n N : Int) (_h0 : 0 ≤ n) (h : n ≤ N) :
+    0 ≤ padSliceLo n N ∧ padSliceHi n N ≤ N ∧ padSliceHi n N - padSliceLo n N = n ∧
+    padSliceLo n N + n / 2 = N / 2 := by
+  refine ⟨?_, ?_, ?_, ?_⟩ <;> (try simp only [padSliceLo, padSliceHi, Model.C04.padBefore]) <;> omega
+
+/-- cropping moves the origin sample onto the origin of the new array and stays in bounds -/
+theorem crop_origin (n N : Int) (_h0 : 0 ≤ N) (h : N ≤ n) :
+    n / 2 - cropLo n N = N / 2 ∧ 0 ≤ cropLo n N ∧ cropHi n N ≤ n ∧ cropHi n N - cropLo n N = N := by
+  refine ⟨?_, ?_, ?_, ?_⟩ <;> (try simp only [cropLo, cropHi, Model.C04.cropLeft]) <;> omega
+
+example : (7 : Int) / 2 - cropLo 7 4 = 4 / 2 := by decide
+
+/-- crop undoes pad exactly: same offset in both branches of pad2d, any fill, any mode -/
+theorem crop_pad_id (n N : Int) : cropLo N n = padBefore n N ∧ cropLo N n = padSliceLo n N := by
+  constructor <;> (try simp only [cropLo, padBefore, padSliceLo, Model.C04.cropLeft, Model.C04.padBefore]) <;> omega
+
+/-- 2-D, per-axis different lengths `(n₀→N₀, n₁→N₁)`: the origin sample `(n₀//2, n₁//2)` of the input is what the
+padded array holds at its origin `(N₀//2, N₁//2)` -/
+theorem pad2_origin (n0 n1 N0 N1 : Int) (h0 : 1 ≤ n0) (h1 : 1 ≤ n1) (g0 : n0 ≤ N0) (g1 : n1 ≤ N1) :
+    pad2Src n0 n1 N0 N1 (N0 / 2) (N1 / 2) = some (n0 / 2, n1 / 2) := by
+  obtain ⟨a0, a1, a2, a3⟩ := pad_slice_in_bounds n0 N0 (by omega) g0
+  obtain ⟨b0, b1, b2, b3⟩ := pad_slice_in_bounds n1 N1 (by omega) g1
+  unfold pad2Src
+  rw [if_pos (by omega)]
+  congr 2 <;> omega
+
+example : pad2Src 4 3 7 8 (7 / 2) (8 / 2) = some (4 / 2, 3 / 2) := by decide
+
+/-- 2-D crop: the output origin `(N₀//2, N₁//2)` is the input origin `(n₀//2, n₁//2)`; each axis uses its own pair -/
+theorem crop2_origin (n0 n1 N0 N1 : Int) (h0 : 0 ≤ N0) (h1 : 0 ≤ N1) (g0 : N0 ≤ n0) (g1 : N1 ≤ n1) :
+    crop2Src n0 n1 N0 N1 (N0 / 2) (N1 / 2) = (n0 / 2, n1 / 2) := by
+  obtain ⟨a, _, _, _⟩ := crop_origin n0 N0 h0 g0
+  obtain ⟨b, _, _, _⟩ := crop_origin n1 N1 h1 g1
+  unfold crop2Src
+  congr 1 <;> omega
+
+/-- 2-D `crop_center(pad2d(x)) = x` sample for sample, per-axis different targets, every parity -/
+theorem crop2_pad2_roundtrip (n0 n1 N0 N1 i j : Int) (hi0 : 0 ≤ i) (hi : i < n0) (hj0 : 0 ≤ j) (hj : j < n1)
+    (g0 : n0 ≤ N0) (g1 : n1 ≤ N1) :
+    pad2Src n0 n1 N0 N1 (crop2Src N0 N1 n0 n1 i j).1 (crop2Src N0 N1 n0 n1 i j).2 = some (i, j) := by
+  obtain ⟨a0, a1, a2, a3⟩ := pad_slice_in_bounds n0 N0 (by omega) g0
+  obtain ⟨b0, b1, b2, b3⟩ := pad_slice_in_bounds n1 N1 (by omega) g1
+  obtain ⟨_, c0⟩ := crop_pad_id n0 N0
+  obtain ⟨_, c1⟩ := crop_pad_id n1 N1
+  unfold pad2Src crop2Src
+  simp only []
+  rw [if_pos (by omega)]
+  congr 2 <;> omega
+
+/-- 1-D index-map form of the round trip over the driver-executed hand model -/
+theorem crop_pad_roundtrip (n N i : Int) (h0 : 0 ≤ i) (hi : i < n) :
+    Model.C04.padSrc n N (Model.C04.cropSrc N n i) = some i := by
+  unfold Model.C04.padSrc Model.C04.cropSrc Model.C04.cropLeft Model.C04.padBefore
+  split
+  · congr 1; omega
+  · omega
+
+/-- a shrinking request handed to `pad2d` cannot be served: any block cut out of an axis of length `N < n` is
+shorter than the `n` input samples (NumPy then refuses the assignment; the harness checks the `ValueError`) -/
+theorem pad_shrink_impossible (n N lo hi : Int) (h : N < n) (h0 : 0 ≤ lo) (h1 : hi ≤ N) : hi - lo ≠ n := by
+  omega
+
 /-- default padded length is `⌈n·Q⌉`, and `Q = 1` changes nothing -/
 theorem padOutLen_ceil (n : Int) (Q : Rat) : padOutLen n Q = ((⌈(n : Rat) * Q⌉ : Int) : Rat) := by
-  simp only [padOutLen, Rat.ceil_eq_intCeil]
+  rw [gen_padOutLen]; simp only [Model.C04.padOutLen, Rat.ceil_eq_intCeil]
 
+/-- `Q = 1` keeps the length -/
 theorem padOutLen_one (n : Int) : padOutLen n 1 = n := by
   rw [padOutLen_ceil]; simp
 
-/-! ## non-vacuity: the hypotheses are met by concrete, parity-mixed instances -/
-example : padBefore 4 7 + 4 / 2 = 7 / 2 := by decide
-example : (7 : Int) / 2 - cropLo 7 4 = 4 / 2 := by decide
-example : Model.C04.ftUnitNum 7 3 = 0 ∧ Model.C04.ftUnitNum 8 4 = 0 := by decide
+/-! ## slices of a data set -/
+
+/-- `RichData.x` is the first, `.y` the second array of `make_xy_grid(data.shape, dx=dx)`, and `slices()` hands
+row 0 of `x` / column 0 of `y` to `Slices` -/
+theorem rich_vectors (m n : Int) (dx : Rat) (k : Int) :
+    slicesXVec (richX m n dx) (richY m n dx) k = ((k - n / 2 : Int) : Rat) * dx ∧
+    slicesYVec (richX m n dx) (richY m n dx) k = ((k - m / 2 : Int) : Rat) * dx := by
+  constructor <;>
+    simp only [slicesXVec, slicesYVec, Model.C04.slicesXVec, Model.C04.slicesYVec, richX, richY,
+      (grid_values m n dx _ _).1, (grid_values m n dx _ _).2.1]
+
+/-- any argmin of `|(k − len//2)·dx|` with `dx ≠ 0` is `len//2` (floating-point scaling by `dx` cannot move it) -/
+theorem argmin_scaled (am : (Int → Rat) → Int → Int) (ham : IsArgminAbs am) (len : Int) (hl : 1 ≤ len)
+    (dx : Rat) (hdx : dx ≠ 0) (v : Int → Rat) (hv : ∀ k, v k = ((k - len / 2 : Int) : Rat) * dx) :
+    am v len = len / 2 := by
+  obtain ⟨a0, a1, hmin⟩ := ham v len hl
+  have h := hmin (len / 2) (by omega) (by omega)
+  rw [hv (len / 2), hv (am v len)] at h
+  simp only [sub_self, Int.cast_zero, zero_mul, abs_zero] at h
+  have hz : ((am v len - len / 2 : Int) : Rat) * dx = 0 := abs_nonpos_iff.1 h
+  rcases mul_eq_zero.1 hz with h | h
+  · have : am v len - len / 2 = 0 := by exact_mod_cast h
+    omega
+  · exact absurd h hdx
+
+/-- the slices of a data set pass through the origin sample: for every `np.argmin(abs(·))` meeting its
+specification, every shape `m, n ≥ 1` and every spacing `dx ≠ 0`, the centre found by `Slices` is `(m//2, n//2)`;
+the two-sided slices are row `m//2` / column `n//2` of the data, the one-sided ones start at the origin sample, and
+the coordinate attached to the origin sample is exactly zero -/
+theorem slices_through_origin {α : Type} (am : (Int → Rat) → Int → Int) (ham : IsArgminAbs am)
+    (m n : Int) (hm : 1 ≤ m) (hn : 1 ≤ n) (dx : Rat) (hdx : dx ≠ 0) (src : Int → Int → α) :
+    let xv := slicesXVec (richX m n dx) (richY m n dx)
+    let yv := slicesYVec (richX m n dx) (richY m n dx)
+    let cy := slicesCentreY am m n xv yv
+    let cx := slicesCentreX am m n xv yv
+    cy = m / 2 ∧ cx = n / 2 ∧
+    (∀ k, sliceXTwo src cy cx k = src (m / 2) k) ∧ (∀ k, sliceYTwo src cy cx k = src k (n / 2)) ∧
+    (∀ k, sliceXOne src cy cx k = src (m / 2) (n / 2 + k)) ∧ (∀ k, sliceYOne src cy cx k = src (m / 2 + k) (n / 2)) ∧
+    sliceXTwoCoord xv yv cy cx (n / 2) = 0 ∧ sliceYTwoCoord xv yv cy cx (m / 2) = 0 ∧
+    sliceXOneCoord xv yv cy cx 0 = 0 ∧ sliceYOneCoord xv yv cy cx 0 = 0 := by
+  intro xv yv cy cx
+  have hxv : ∀ k, xv k = ((k - n / 2 : Int) : Rat) * dx := fun k => (rich_vectors m n dx k).1
+  have hyv : ∀ k, yv k = ((k - m / 2 : Int) : Rat) * dx := fun k => (rich_vectors m n dx k).2
+  have hcy : cy = m / 2 := by
+    simp only [cy, slicesCentreY, Model.C04.slicesCentreY]
+    first
+      | exact argmin_scaled am ham m hm dx hdx yv hyv
+      | omega
+  have hcx : cx = n / 2 := by
+    simp only [cx, slicesCentreX, Model.C04.slicesCentreX]
+    first
+      | exact argmin_scaled am ham n hn dx hdx xv hxv
+      | omega
+  refine ⟨hcy, hcx, ?_, ?_, ?_, ?_, ?_, ?_, ?_, ?_⟩ <;>
+    simp only [hcy, hcx, sliceXTwo, sliceYTwo, sliceXOne, sliceYOne, sliceXTwoCoord, sliceYTwoCoord, sliceXOneCoord,
+      sliceYOneCoord, Model.C04.sliceXTwo, Model.C04.sliceYTwo, Model.C04.sliceXOne, Model.C04.sliceYOne,
+      Model.C04.sliceXOneCoord, Model.C04.sliceYOneCoord, hxv, hyv, add_zero, sub_self, Int.cast_zero, zero_mul,
+      implies_true]
+
+/-- the argmin specification assumed by `slices_through_origin` is satisfiable -/
+example : ∃ am, IsArgminAbs am := isArgminAbs_exists
+
+/-! ## centroid -/
+
+/-- the centroid reference is the origin sample -/
+theorem centroid_ref (n : Int) : centroidRef n = n / 2 := by
+  (try simp only [centroidRef, Model.C04.centroidRef]) <;> omega
+
+/-- what `centroid` returns per axis: `dx·(com − n//2)` for `unit='spatial'`, the centre of mass itself otherwise -/
+theorem centroid_return (dx com : Rat) (n : Int) :
+    centroidSpatialElem dx com n = dx * (com - ((n / 2 : Int) : Rat)) ∧ centroidPixelsElem com n = com := by
+  constructor <;>
+    (try simp only [centroidSpatialElem, centroidPixelsElem, Model.C04.centroidSpatial, centroid_ref,
+      ← gen_centroid]) <;> ring
+
+/-- translated spatial centroid component = the model run by the driver -/
+theorem gen_centroid_return (dx com : Rat) (n : Int) :
+    centroidSpatialElem dx com n = Model.C04.centroidSpatial dx com n := by
+  rw [(centroid_return dx com n).1]; simp only [Model.C04.centroidSpatial, Model.C04.centroidRef]
+
+/-- a point source at row `p`, column `q` of an `m × n` array (`k = p − m//2`, `l = q − n//2` samples from the origin)
+is reported at `(k·dx, l·dx)`, in (row, column) order, and at `(p, q)` in pixel units; the centre of mass is the
+first moment over the total (SciPy's `center_of_mass`, trusted to compute exactly that) -/
+theorem centroid_of_point_source (m n p q : ℕ) (hp : p < m) (hq : q < n) (c : ℚ) (hc : c ≠ 0) (dx : ℚ) :
+    centroidSpatialElem dx (comY (delta p q c) m n) m = (((p : Int) - (m : Int) / 2 : Int) : ℚ) * dx ∧
+    centroidSpatialElem dx (comX (delta p q c) m n) n = (((q : Int) - (n : Int) / 2 : Int) : ℚ) * dx ∧
+    centroidPixelsElem (comY (delta p q c) m n) m = p ∧ centroidPixelsElem (comX (delta p q c) m n) n = q := by
+  obtain ⟨hy, hx⟩ := com_delta m n p q hp hq c hc
+  refine ⟨?_, ?_, ?_, ?_⟩
+  · rw [(centroid_return _ _ _).1, hy]; push_cast; ring
+  · rw [(centroid_return _ _ _).1, hx]; push_cast; ring
+  · rw [(centroid_return dx _ _).2, hy]
+  · rw [(centroid_return dx _ _).2, hx]
+
+/-- the centre-of-mass hypothesis is met by a concrete point source -/
+example : comY (delta 1 2 3) 3 4 = 1 ∧ comX (delta 1 2 3) 3 4 = 2 :=
+  com_delta 3 4 1 2 (by decide) (by decide) 3 (by norm_num)
 
 end C04
